@@ -66,6 +66,7 @@ struct KeyRel {
 }
 
 struct Ctx {
+    seed: u64,
     conc: Conc,
     hash_seed: u64,
     keys: Mutex<KeyRel>,
@@ -107,8 +108,8 @@ fn compare_outputs(ctx: &Ctx, reg: &Registry, expected: &Value, real: &[sozu_lib
                     rel.by_key.insert(k.clone(), h.clone());
                     rel.by_hash.insert(h, k);
                 } else if e != g {
-                    let kind = e["k"].as_str().unwrap_or("?").to_string();
-                    let kind = if e["k"] == g["k"] {
+                    let kind = kind_name(e);
+                    let kind = if e["k"] == g["k"] && e["m"] == g["m"] {
                         // name the first differing field
                         let mut f = String::new();
                         if let (Some(eo), Some(go)) = (e.as_object(), g.as_object()) {
@@ -121,17 +122,24 @@ fn compare_outputs(ctx: &Ctx, reg: &Registry, expected: &Value, real: &[sozu_lib
                         }
                         format!("{kind}{f}")
                     } else {
-                        format!("{kind}/{}", g["k"].as_str().unwrap_or("?"))
+                        format!("{kind}/{}", kind_name(g))
                     };
                     return (Some(format!("out:{kind}")), Value::Array(got));
                 }
             }
-            (Some(e), None) => return (Some(format!("out:missing-{}", e["k"].as_str().unwrap_or("?"))), Value::Array(got)),
-            (None, Some(g)) => return (Some(format!("out:extra-{}", g["k"].as_str().unwrap_or("?"))), Value::Array(got)),
+            (Some(e), None) => return (Some(format!("out:missing-{}", kind_name(e))), Value::Array(got)),
+            (None, Some(g)) => return (Some(format!("out:extra-{}", kind_name(g))), Value::Array(got)),
             (None, None) => {}
         }
     }
     (None, Value::Array(got))
+}
+
+fn kind_name(o: &Value) -> String {
+    match (o["k"].as_str().unwrap_or("?"), o["m"].as_str()) {
+        ("Metric", Some(m)) => format!("Metric.{m}"),
+        (k, _) => k.to_string(),
+    }
 }
 
 fn compare_obs(expected: &Value, got: &Value) -> Option<String> {
@@ -185,7 +193,7 @@ fn replay_edge(ctx: &Ctx, g: &Graph, path: &[usize], eidx: usize) -> Option<(Str
             "expected": {"out": e.out, "obs": state_obs(&g.states[e.post])},
             "got": {"out": got_out, "obs": got_obs},
             "class": class,
-            "concretisation": {"time_unit_ms": ctx.conc.time_unit, "len_unit": ctx.conc.len_unit, "port_base": ctx.conc.port_base, "hash_seed": ctx.hash_seed},
+            "concretisation": {"time_unit_ms": ctx.conc.time_unit, "len_unit": ctx.conc.len_unit, "port_base": ctx.conc.port_base, "hash_seed": ctx.hash_seed, "seed": ctx.seed},
         })
     };
     if let Some(p) = r.panic {
@@ -204,8 +212,10 @@ fn replay_edge(ctx: &Ctx, g: &Graph, path: &[usize], eidx: usize) -> Option<(Str
 
 fn report(ctx: &Ctx, class: String, detail: Value) {
     *ctx.classes.lock().unwrap().entry(class.clone()).or_default() += 1;
+    // a few detailed examples per class are enough; every mismatch is counted in `classes`
     let mut v = ctx.violations.lock().unwrap();
-    if v.len() < 40 {
+    let same = v.iter().filter(|x| x["class"] == class.as_str()).count();
+    if same < 3 && v.len() < 15 {
         v.push(json!({"kind":"violation","class":class,"detail":detail}));
     }
 }
@@ -219,26 +229,32 @@ fn replay_behaviour(ctx: &Ctx, b: &Value) -> (u64, bool) {
     let empty = Vec::new();
     let all = b["steps"].as_array().unwrap_or(&empty);
     for (k, st) in all.iter().enumerate() {
+        // a step may carry its own time (re-execution of a stored violation) and no prediction
+        now = st.get("now").and_then(|v| v.as_i64()).unwrap_or(now);
         let r = apply(&mut mgr, &ctx.conc, &mut reg, &st["inp"], now);
         steps += 1;
         let fail = |class: &str, got_out: Value, got_obs: Value| {
             json!({"init": init, "history": all[..k].iter().map(|s| json!({"inp": s["inp"]})).collect::<Vec<_>>(),
                    "step": {"inp": st["inp"], "now": now}, "expected": {"out": st["out"], "obs": state_obs(&st["post"])},
                    "got": {"out": got_out, "obs": got_obs}, "class": class, "behaviour": true,
-                   "concretisation": {"time_unit_ms": ctx.conc.time_unit, "len_unit": ctx.conc.len_unit, "port_base": ctx.conc.port_base, "hash_seed": ctx.hash_seed}})
+                   "concretisation": {"time_unit_ms": ctx.conc.time_unit, "len_unit": ctx.conc.len_unit, "port_base": ctx.conc.port_base, "hash_seed": ctx.hash_seed, "seed": ctx.seed}})
         };
         if let Some(p) = r.panic {
             report(ctx, "panic".into(), fail("panic", json!({"panic": p}), Value::Null));
             return (steps, false);
         }
-        let (c, got_out) = compare_outputs(ctx, &reg, &st["out"], &r.outputs);
-        let got_obs = project_state(&ctx.conc, &reg, &mgr);
-        let c = c.or_else(|| compare_obs(state_obs(&st["post"]), &got_obs));
-        if let Some(c) = c {
-            report(ctx, c.clone(), fail(&c, got_out, got_obs));
-            return (steps, false);
+        if st.get("out").map(|o| o.is_array()).unwrap_or(false) {
+            let (c, got_out) = compare_outputs(ctx, &reg, &st["out"], &r.outputs);
+            let got_obs = project_state(&ctx.conc, &reg, &mgr);
+            let c = c.or_else(|| compare_obs(state_obs(&st["post"]), &got_obs));
+            if let Some(c) = c {
+                report(ctx, c.clone(), fail(&c, got_out, got_obs));
+                return (steps, false);
+            }
         }
-        now = state_now(&st["post"]);
+        if st["post"].is_array() {
+            now = state_now(&st["post"]);
+        }
     }
     (steps, true)
 }
@@ -254,6 +270,7 @@ fn main() {
     let variant = seed % 3;
     let conc = Conc::new(Instant::now(), [1000, 250, 7][variant as usize], [8, 5, 16][variant as usize], [9000, 40000, 0][variant as usize], (seed % 200) as u8);
     let ctx = Ctx {
+        seed,
         conc,
         hash_seed: seed.wrapping_mul(0x9E37_79B9_7F4A_7C15) ^ 0xABCD,
         keys: Mutex::new(KeyRel::default()),
